@@ -221,6 +221,7 @@ def gen_script(rnd, k):
     # the logic must cover everything the script mentions (also the get-value terms)
     logic = pick_logic(forms + gv_terms, rnd)
     w = Writer(rnd, numerals_are_real=logic in ("QF_LRA", "QF_NRA", "QF_RDL", "LRA"), tags=tags)
+    w.int_numeral_rationals = True
     lines = []
     if logic:
         lines.append("(set-logic %s)" % logic)
